@@ -241,4 +241,32 @@ REG = {
         "trusted_base": TB_COMMON,
         "assumptions": ["verify_compressed end to end (challenge recomputation by hashing) is outside; challenges are seeded constants"],
     },
+    "C06": {
+        "families": [("S", "recursion", None, r"^C06\.")],
+        "explanation": (
+            "Bounded symbolic verification, ARITHMETIC SLICE ONLY (DESIGN.md section 5, C06): eval_vanishing_poly_circuit "
+            "== eval_vanishing_poly (tiny circuit fully symbolic; a multi-gate common data with 135 base-embedded wires), "
+            "check_partial_products_circuit / eval_l_0_circuit / reduce_with_powers(_ext)_circuit / ReducingFactorTarget == "
+            "native; in-circuit fri_combine_initial and compute_evaluation (CosetInterpolationGate) == native for small "
+            "shapes and every coset position; polynomial evaluation target == Horner; and the real private "
+            "verify_proof_with_challenges circuit for the tiny common data: the equalities it connects imply the native "
+            "vanishing identity for EVERY challenge index. All circuits are built by the real CircuitBuilder and their "
+            "witness generated by the real generate_partial_witness from symbolic inputs (proof assigned with "
+            "set_proof_with_pis_target)."),
+        "trusted_base": TB_COMMON,
+        "assumptions": ["NOT covered: in-circuit hashing, Merkle verification, the recursive challenger / get_challenges, the proof-of-work range check, any outer prove/verify of a recursion circuit: a check omitted only in those parts of the circuit verifier is missed",
+                        "assumed: evaluation point != 1 (documented in eval_l_0_circuit), beta not an interpolation point, subgroup_x != opening point"],
+    },
+    "C20": {
+        "families": [("S", "recursion", None, r"^C20\.")],
+        "explanation": (
+            "Bounded symbolic verification, ARITHMETIC SLICE ONLY (DESIGN.md section 5, C20): select_proof_with_pis / "
+            "select_verifier_data / select_hash / select_ext: for b in {0,1} every one of the 292 targets of the selected "
+            "proof structure equals the corresponding input of the selected proof (real builder, real generators, proofs "
+            "assigned with set_proof_with_pis_target, all inputs distinct symbols); check_cyclic_proof_verifier_data in "
+            "accept-path mode for cap heights 0..2: sound, complete, every one of the 4+4*2^cap positions pinned, a "
+            "too-short public-input vector is rejected without panic."),
+        "trusted_base": TB_COMMON,
+        "assumptions": ["NOT covered: the conditional / cyclic verifier circuits as a whole (they embed the full recursive verifier), dummy proofs and dummy circuits, outer prove/verify"],
+    },
 }
